@@ -322,7 +322,12 @@ func c14W2(b *core.B, r *core.Rng, rounds int) {
 func c14W4(b *core.B, r *core.Rng, rounds int) {
 	for round := 0; round < rounds; round++ {
 		body := genProgram(r, 1, func(g *pGen) { g.noAssign = true; g.noFail = true })
-		page := "page<% contentFor(\"side\") { %>[" + body.canonical() + "|<%= who %>]<% } %>"
+		loopInBlock := ""
+		if round%3 == 2 {
+			// the stored block has a loop of its own that a helper's block leaves with break
+			loopInBlock = "<%= for (i) in [1, 2, 3] { %><%= cap() { %><%= i %><% if (i == 2) { break } %>,<% } %><% } %>"
+		}
+		page := "page<% contentFor(\"side\") { %>[" + body.canonical() + loopInBlock + "|<%= who %>]<% } %>"
 		layout := "layout(<%= contentOf(\"side\") %>)<%= who %>"
 		if !b.Begin("W4 " + page + "\n=====\n" + layout) {
 			continue
